@@ -23,3 +23,13 @@ func VerifWaitFill(rc io.ReadCloser) {
 	}
 	<-r.cacheWriteDone
 }
+
+// VerifWaitFillDone blocks until the fill goroutine of a streaming reader has finished even though the reader's
+// side of the pipe is still open (the cache's Set returned early because the persistor failed).
+func VerifWaitFillDone(rc io.ReadCloser) {
+	r, ok := rc.(*streamingCacheOnReadCloser)
+	if !ok || r.cacheWriteDone == nil {
+		return
+	}
+	<-r.cacheWriteDone
+}
